@@ -148,10 +148,12 @@ def differences(before, after, okw):
     return bad
 
 
-def refusal(ex):
+def refusal(ex, oname=""):
     """documented-by-behaviour refusals (exceptions, never silent): classes without testvalue_many cannot feed the density matrices;
     density matrices over real orbitals cannot hold the complex ratios of a complex-valued wave function"""
     msg = "%s: %s" % (type(ex).__name__, ex)
+    if not (oname.startswith("obdm") or oname.startswith("tbdm")):
+        return None  # only the density matrices have these documented limits; anywhere else the same exception is an alarm
     if isinstance(ex, AttributeError) and "testvalue_many" in msg:
         return "wave-function class without testvalue_many offered to a density matrix (AttributeError)"
     if "UFuncTypeError" in msg and "complex128" in msg and "float64" in msg:
@@ -191,7 +193,7 @@ def check_state(ck):
     zoo = wfzoo.obc_wfs(ck.rng, which="all" if ck.thorough else "few", jax=ck.thorough)
     if not ck.thorough:
         allw = wfzoo.obc_wfs(ck.rng, which="all", jax=True)
-        pick = {"slater_uhf_triplet*jastrow", "multislater_casci*jastrow", "add(sj,sj3)complexcoef", "jax_slater", "jax_jastrow"}
+        pick = {"slater_uhf_triplet*jastrow", "multislater_casci*jastrow", "add(sj,sj)", "add(sj,sj3)complexcoef", "jax_slater", "jax_jastrow"}
         zoo = [z for z in zoo if z[0] in ("slater*jastrow*threebody", "jastrow")] + [z for z in allw if z[0] in pick]
     zoo += wfzoo.pbc_wfs(ck.rng, which="all")[: (3 if ck.thorough else 2)]
     zoo += wfzoo.ecp_wfs(ck.rng, periodic=True)
@@ -241,8 +243,8 @@ def check_state(ck):
                     # a loud refusal is not a silent disturbance: the object is recomputed and the pair counted
                     wf.recompute(cfg)
                     ok = False
-                    if refusal(ex):
-                        ck.count("refused: " + refusal(ex))
+                    if refusal(ex, oname):
+                        ck.count("refused: " + refusal(ex, oname))
                         built.pop(oname, None)
                     else:
                         ck.guarded(fn, "observable", SITE, dict(inp, call=call))
